@@ -34,6 +34,10 @@ package gonum
 //@ panics iff !valid, before-writes
 //@ writes a[i*lda+j] for i in 0..m, j in 0..n ; ipiv[j] for j in 0..min(m, n)
 //@ ensures forall(j, 0, min(m, n), j <= ipiv[j] && ipiv[j] < m)
+// a singular input is reported: success means that no pivot of U is exactly zero
+//@ ensures result ==> forall(j, 0, min(m, n), a[j*lda+j] != 0)
+//@ loop 1: invariant ok ==> forall(t, 0, j, a[t*lda+t] != 0)
+//@ loop 2: invariant ok ==> forall(t, 0, j+1, a[t*lda+t] != 0)
 
 //@ func Implementation.Dgetrf props: C02 C07(safety)
 //@ valid m >= 0 && n >= 0 && lda >= max(1, n) &&
